@@ -70,6 +70,8 @@ class Cfg:
     bitmask: bool = True
     meas_arity: tuple = (1, 1, 1, 2, 2, 3)
     leg_p: int = 2  # out of 10: measure one leg right behind a two-qubit gate
+    tail: object = None  # callable(dims) -> strategy of op recipes appended at the very end (row specific shapes)
+    tail_p: int = 4  # out of 10
 
 
 def _default_pred(cfg):
@@ -193,6 +195,8 @@ def circuits6(draw, cfg: Cfg):
     r["repkeys"] = cfg.repkeys and draw(st.integers(0, 3)) == 0
     r["ops"] = draw(_body(cfg, r["dims"], 0, cfg.max_ops))
     n = len(r["dims"])
+    if cfg.tail is not None and n >= 2 and draw(st.integers(0, 9)) < cfg.tail_p:
+        r["ops"] = r["ops"] + draw(cfg.tail(r["dims"]))
     if cfg.terminal_only and cfg.meas > 0:
         # terminal measurements: a partition of a subset of the wires, appended at the end
         ws = list(draw(st.permutations(list(range(n)))))[: draw(st.integers(0, n))]
